@@ -312,6 +312,8 @@ def _order(repo, rep):
     _declaration_scope(repo, rep)
     _meta_grammar(repo, rep)
     _meta_group_roles(repo, rep)
+    _meta_shape(repo, rep)
+    _reader_details(repo, rep)
     dv = repo.cls("chameleon.template.BaseTemplate").attrs.get(
         "default_encoding")
     rep.check(isinstance(dv, ast.Constant) and dv.value == "utf-8", "R17.1",
@@ -721,3 +723,248 @@ def _meta_group_roles(repo, rep):
               "from the groups behind 'content=', the charset from the "
               "groups behind 'charset=', whichever attribute order matched",
               construct="meta-group-roles", where=L.where(f), detail=detail)
+
+
+def _meta_shape(repo, rep):
+    """Obligations on the shape of RE_META, decided on its syntax tree (per
+    alternative, groups flattened):
+    * a white-space repeat admits every white-space character (a meta element
+      may be wrapped over lines, or use tabs);
+    * a quote around a value is optional and single;
+    * at least one white-space character separates 'meta' from the first
+      attribute and the two attributes from each other;
+    * a captured value is not empty;
+    * a lazy white-space repeat is not followed by something that can match
+      white space itself (it would hand the blanks to the captured value)."""
+    from .. import rx
+    C = rx.C
+    rc = repo.const("chameleon.utils", "RE_META")
+    tree = list(rx.parse(rc.pattern, rc.flags))
+    WS = rx.CharSet.of(" \t\n\r")
+    QU = rx.CharSet.of("\"'")
+    bad = []
+    counts = dict(ws=0, quote=0, sep=0, value=0)
+
+    def alts(items):
+        out = [[]]
+        for op, av in items:
+            if op is C.BRANCH:
+                new = []
+                for a in out:
+                    for b in av[1]:
+                        for sub in alts(list(b)):
+                            new.append(a + sub)
+                out = new
+            elif op is C.SUBPATTERN:
+                new = []
+                for a in out:
+                    for sub in alts(list(av[3])):
+                        new.append(a + [("GROUP-OPEN", av[0])] + sub +
+                                   [("GROUP-CLOSE", av[0])])
+                out = new
+            else:
+                out = [a + [(op, av)] for a in out]
+        return out
+
+    def rep_of(it):
+        """(min, max, lazy, charset) of a repeat over one class / char"""
+        op, av = it
+        if op in (C.MAX_REPEAT, C.MIN_REPEAT):
+            body = list(av[2])
+            return av[0], av[1], op is C.MIN_REPEAT, rx.all_chars(body)
+        return None
+
+    def first_chars(items):
+        cs = rx.CharSet()
+        for it in items:
+            if it[0] in ("GROUP-OPEN", "GROUP-CLOSE"):
+                continue
+            r = rep_of(it)
+            if r is not None:
+                cs = cs | r[3]
+                if r[0] == 0:
+                    continue
+                return cs
+            cs = cs | rx.all_chars([it])
+            return cs
+        return cs
+
+    uses = [n for m_ in repo.modules.values() for n in ast.walk(m_.tree)
+            if isinstance(n, ast.Attribute) and isinstance(n.value, ast.Name)
+            and n.value.id == "RE_META"]
+    searched_only = bool(uses) and all(n.attr == "search" for n in uses)
+    for alt in alts(tree):
+        consuming = [it for it in alt]
+        word = ""
+        for i, it in enumerate(consuming):
+            if it[0] is C.LITERAL:
+                word += chr(it[1]).lower()
+                continue
+            r = rep_of(it)
+            prev_word, word = word, ""
+            if it[0] in ("GROUP-OPEN", "GROUP-CLOSE"):
+                word = prev_word
+                continue
+            if r is None:
+                continue
+            mn, mx, lazy, cs = r
+            if " " in cs and not ("a" in cs):
+                counts["ws"] += 1
+                # (the pattern is only ever searched for and only its groups
+                # are read: white space at its two ends is immaterial)
+                edge = searched_only and (
+                    not any(jt[0] not in ("GROUP-OPEN", "GROUP-CLOSE")
+                            for jt in consuming[:i]) or
+                    not any(jt[0] not in ("GROUP-OPEN", "GROUP-CLOSE")
+                            for jt in consuming[i + 1:]))
+                if not (WS <= cs) and not edge:
+                    bad.append("a white-space repeat admits only %s" % (cs,))
+                # separator: the next literal run is an attribute name, the
+                # previous one is 'meta' or the end of an attribute value
+                nxt = ""
+                for jt in consuming[i + 1:]:
+                    if jt[0] is C.LITERAL:
+                        nxt += chr(jt[1]).lower()
+                    elif jt[0] in ("GROUP-OPEN", "GROUP-CLOSE"):
+                        continue
+                    else:
+                        break
+                if nxt.startswith(("http-equiv", "content")) and \
+                        not nxt.startswith("content-type"):
+                    counts["sep"] += 1
+                    if mn < 1:
+                        bad.append("no white space required in front of "
+                                   "the attribute '%s'" % nxt[:10])
+                if lazy:
+                    # what follows, up to the first item that must consume
+                    # something: a captured value that admits white space
+                    # would get the blanks the lazy repeat declines
+                    depth = 0
+                    for jt in consuming[:i + 1]:
+                        if jt[0] == "GROUP-OPEN" and jt[1] is not None:
+                            depth += 1
+                        elif jt[0] == "GROUP-CLOSE" and jt[1] is not None:
+                            depth -= 1
+                    for jt in consuming[i + 1:]:
+                        if jt[0] == "GROUP-OPEN":
+                            depth += jt[1] is not None
+                            continue
+                        if jt[0] == "GROUP-CLOSE":
+                            depth -= jt[1] is not None
+                            continue
+                        r2 = rep_of(jt)
+                        cs2 = r2[3] if r2 is not None else \
+                            rx.all_chars([jt])
+                        if depth > 0 and (" " in cs2 or "\t" in cs2):
+                            bad.append("a lazy white-space repeat stands in "
+                                       "front of a captured value that "
+                                       "admits white space")
+                        if r2 is None or r2[0] > 0:
+                            break
+            elif cs == QU:
+                counts["quote"] += 1
+                if not (mn == 0 and mx == 1):
+                    bad.append("a quote is required / repeated (%d..%s)"
+                               % (mn, mx))
+            else:
+                # a value: inside a capturing group?
+                depth = 0
+                for jt in consuming[:i]:
+                    if jt[0] == "GROUP-OPEN" and jt[1] is not None:
+                        depth += 1
+                    elif jt[0] == "GROUP-CLOSE" and jt[1] is not None:
+                        depth -= 1
+                if depth > 0:
+                    counts["value"] += 1
+                    if mn < 1:
+                        bad.append("a captured value may be empty")
+        # a quote class that is not under a repeat at all is mandatory
+        for it in consuming:
+            if it[0] is C.IN and rx.in_set(it[1]) == QU:
+                counts["quote"] += 1
+                bad.append("a quote is required")
+    rep.check(not bad and counts["ws"] >= 20 and counts["quote"] >= 8 and
+              counts["sep"] >= 4 and counts["value"] >= 4, "R17.1",
+              U + "RE_META", "shape of the meta pattern: total white-space "
+              "classes (%(ws)d), optional quotes (%(quote)d), mandatory "
+              "separators (%(sep)d), non-empty values (%(value)d)" % counts,
+              construct="meta-shape", detail="; ".join(sorted(set(bad))))
+
+
+def _reader_details(repo, rep):
+    """read_bytes reports (document, encoding, content type); the content
+    type of a BOM document comes from component 0 of what detect_encoding
+    returns (content type, charset).  read_xml_encoding bounds the search by
+    the position find() returned only when it found something (>= 0)."""
+    rb = repo.func(U + "read_bytes")
+    bad = []
+    n = 0
+    for r in ast.walk(rb.node):
+        if isinstance(r, ast.Return) and isinstance(r.value, ast.Tuple) and \
+                len(r.value.elts) == 3:
+            third = r.value.elts[2]
+            for x in ast.walk(third):
+                if isinstance(x, ast.Subscript) and isinstance(
+                        x.value, ast.Call) and \
+                        src(x.value.func) == "detect_encoding":
+                    n += 1
+                    try:
+                        idx = ast.literal_eval(x.slice)
+                    except ValueError:
+                        idx = None
+                    if idx != 0 and idx != -2:
+                        bad.append("content type taken from component %s of "
+                                   "detect_encoding()" % src(x.slice))
+    for a in ast.walk(rb.node):
+        if isinstance(a, ast.Assign) and isinstance(
+                a.targets[0], ast.Tuple) and isinstance(a.value, ast.Call) \
+                and src(a.value.func) == "detect_encoding":
+            n += 1
+            names = [src(e) for e in a.targets[0].elts]
+            rets = [r for r in ast.walk(rb.node) if isinstance(r, ast.Return)
+                    and isinstance(r.value, ast.Tuple)
+                    and len(r.value.elts) == 3 and r.lineno > a.lineno
+                    and any(src(e) in names for e in r.value.elts[1:])]
+            for r in rets:
+                if len(names) != 2 or src(r.value.elts[2]) != names[0] or \
+                        names[1] not in src(r.value.elts[0]) + \
+                        src(r.value.elts[1]):
+                    bad.append("(content type, charset) unpacked as %s, "
+                               "returned as %s" % (names, src(r.value)[:60]))
+    rep.check(n >= 2 and not bad, "R17.3", rb.qualname, "the content type "
+              "read_bytes reports is the first component of detect_encoding's "
+              "(content type, charset), the encoding the second",
+              construct="detect-components", where=L.where(rb),
+              detail="; ".join(bad))
+    xe = repo.func(U + "read_xml_encoding")
+    finds = {}
+    for a in ast.walk(xe.node):
+        if isinstance(a, ast.Assign) and isinstance(a.value, ast.Call) and \
+                isinstance(a.value.func, ast.Attribute) and \
+                a.value.func.attr == "find" and isinstance(
+                    a.targets[0], ast.Name):
+            finds[a.targets[0].id] = a
+    okg = bool(finds)
+    gdetail = ""
+    for x in ast.walk(xe.node):
+        if isinstance(x, (ast.IfExp, ast.If)):
+            names = [n_.id for n_ in ast.walk(x.test)
+                     if isinstance(n_, ast.Name) and n_.id in finds]
+            for v in set(names):
+                tv = [L.int_guard_truth(x.test, v, k) for k in (-1, 0, 1, 7)]
+                if None in tv:
+                    continue
+                # the branch that uses the position is taken for k >= 0 only
+                uses_in_body = any(isinstance(n_, ast.Name) and n_.id == v
+                                   for n_ in ast.walk(
+                                       x.body if isinstance(x, ast.IfExp)
+                                       else ast.Module(x.body, [])))
+                want = [False, True, True, True] if uses_in_body else \
+                    [True, False, False, False]
+                if tv != want:
+                    okg = False
+                    gdetail = "%s is %s for -1, 0, 1, 7" % (src(x.test), tv)
+    rep.check(okg, "R17.1", xe.qualname, "the position find() returned "
+              "bounds the search only when it is a position (-1 means: no "
+              "'?>', search the whole text)", construct="find-miss-guard",
+              where=L.where(xe), detail=gdetail)
